@@ -193,6 +193,15 @@ def index_mutants(f):
                 if not (0 <= off < M and 0 <= ln < M): continue
                 nb = ib[:p1] + enc_head(0, off) + enc_head(0, ln) + ib[p2 + h2:]
                 out.append(join_sections(pre, bodies[:idx] + [(b'index', nb)] + bodies[idx + 1:]))
+        # one entry rewritten to share the offset (or the end) of another: same range (legal, response shared), shorter, longer, shifted
+        pairs = [((p1, h1, v1), (p2, h2, v2)) for (p1, h1, v1), (p2, h2, v2) in zip(uints, uints[1:]) if p2 == p1 + h1]
+        for a, ((q1, g1, o1), (q2, g2, l1)) in enumerate(pairs):
+            for b_, ((p1, h1, v1), (p2, h2, v2)) in enumerate(pairs):
+                if a == b_: continue
+                for off, ln in ((o1, l1), (o1, l1 - 1), (o1, l1 + 1), (o1, 1), (o1 + 1, l1 - 1), (o1, l1 + v2), (o1 + l1 - v2 if o1 + l1 >= v2 else 0, v2)):
+                    if 0 <= off < M and 0 < ln < M:
+                        nb = ib[:p1] + enc_head(0, off) + enc_head(0, ln) + ib[p2 + h2:]
+                        out.append(join_sections(pre, bodies[:idx] + [(b'index', nb)] + bodies[idx + 1:]))
     except Exception:
         pass
     return out
